@@ -215,8 +215,13 @@ def orphans(path: Path, clean: bool, size: bool, show_all: bool, ignore_old: boo
 
     for p in paths:
         if p.is_dir():
-            for relpath, path in getjobs(p):
+            for relpath, linkpath in getjobs(p):
                 xpjobs.add(relpath)
+                # The link may point to a job folder stored under another name
+                # (e.g. a link created by `deprecated list --fix`)
+                target = linkpath.resolve()
+                if target.parent.parent == jobspath.resolve():
+                    xpjobs.add(str(target.relative_to(jobspath.resolve())))
 
     # Now, look at stored jobs
     found = 0
@@ -225,7 +230,10 @@ def orphans(path: Path, clean: bool, size: bool, show_all: bool, ignore_old: boo
             show(key)
             if clean:
                 logging.info("Removing data in %s", jobpath)
-                rmtree(jobpath)
+                if jobpath.is_symlink():
+                    jobpath.unlink()
+                else:
+                    rmtree(jobpath)
         else:
             if show_all:
                 show(key, prefix="[not orphan] ")
